@@ -294,6 +294,9 @@ func (s *fsrv) handle(c net.Conn) {
 	// one chunk.  It returns the number of pieces written.
 	sendBody := func(body []byte, upTo int, chunked bool, stopAfter int) (pieces int, err error) {
 		cs := s.chunkSize
+		if upTo > len(body) {
+			upTo = len(body)
+		}
 		for off := 0; off < upTo; off += cs {
 			if stopAfter >= 0 && pieces >= stopAfter {
 				return pieces, nil
